@@ -124,6 +124,7 @@ struct Exec {
 
   void do_alloc(size_t req) {
     Ev e; e.e = "Alloc"; e.req = (long long)std::min<size_t>(req, 0x7FFFFFFF);
+    if (getenv("VERIF_DEBUG_OPS")) { auto st = alloc->statistics(); fprintf(stderr, "alloc req=%zu live=%zu blocks=%zu reserved=%zu\n", req, live.size(), st.block_count(), st.reserved_size()); }
     JitAllocator::Span span;
     Error err = alloc->alloc(Out(span), req);
     e.r = err_name(err);
